@@ -165,8 +165,12 @@ func (b *streamBase) SetHeader(metadata.MD) error  { return nil }
 func (b *streamBase) SendHeader(metadata.MD) error { return nil }
 func (b *streamBase) SetTrailer(metadata.MD)       {}
 func (b *streamBase) Context() context.Context     { return b.Ctx }
-func (b *streamBase) SendMsg(m any) error          { return errors.New("SendMsg not supported by the harness stream") }
-func (b *streamBase) RecvMsg(m any) error          { return errors.New("RecvMsg not supported by the harness stream") }
+func (b *streamBase) SendMsg(m any) error {
+	return errors.New("SendMsg not supported by the harness stream")
+}
+func (b *streamBase) RecvMsg(m any) error {
+	return errors.New("RecvMsg not supported by the harness stream")
+}
 
 // ReadStream implements bytestream.ByteStream_ReadServer.
 type ReadStream struct {
